@@ -100,6 +100,11 @@ Module UnparseEx.
   Example ex_tree_render : render_inv tinv =
     [[45; 45; 113; 117]; [45; 118; 111; 65]; [103; 111]; [45; 120]; [45; 45; 110; 97; 109; 101; 61; 86]; [70]].
   Proof. vm_compute. reflexivity. Qed.
+  Example ex_tree_no_globals :
+    no_globals (build_recursive (S (S (depth (build_self (with_bin t0 tbin))))) (with_bin t0 tbin)) = true.
+  Proof. vm_compute. reflexivity. Qed.
+  Example ex_tree_run : exists st, run_inv (build_self (with_bin t0 tbin)) tinv = ROk st.
+  Proof. eexists. vm_compute. reflexivity. Qed.
   Definition raw_of (i : id) (m : matches) : option groups := opt_map m_raw (fm_get i (ms_args m)).
   Example ex_tree_parse : exists m sm,
     parse_top t0 (tbin :: render_inv tinv) = OOk m /\ ms_sub m = Some ([114; 117; 110], sm) /\
